@@ -45,6 +45,11 @@ def main(tier=None):
         c.run_suite(Suite(name, "stress", ops, mon, {"cases": len(ops), "nontrivial": len(ops), "goroutines": 16, "ms_each": ms},
                           resets=("stress",), compare=False, binary=binary, env=env), timeout=3000)
         samples.append({"suite": name, "ops": ops[:5]})
+    # goroutines that took their deadlines concurrently register them in either order: the in-flight queue under
+    # same-second deadlines arriving out of order, sequentially (model comparison) and from 16 goroutines
+    from checks import c04
+    c04.add_queue_suites(c, samples, exhaustive_n=2, n_random=300 if c.tier == "quick" else 5000)
+    c04.add_concurrent_suite(c, samples)
     c.assumptions += ["sequentially consistent interleavings of the extracted atomic actions (DRF argument)", "gotomic.Hash is linearisable",
                       "sync.Mutex / sync.RWMutex provide mutual exclusion"]
     return c.finish(samples=samples,
